@@ -231,6 +231,36 @@ func toRows(items []Item) []Row {
 	return out
 }
 
+// mapRow: a row delivered as a map: every column is present, NULL is nil, n and key_copy hold what
+// the table holds for that id; complaints go to errs
+func mapRow(m map[string]interface{}, where string, errs *[]string) Row {
+	for _, c := range []string{"id", "v", "n", "key_copy"} {
+		if _, ok := m[c]; !ok {
+			*errs = append(*errs, fmt.Sprintf("%s: the map of a row has no entry for column %s: %v", where, c, m))
+			return Row{asInt(m["id"]), asInt(m["v"])}
+		}
+	}
+	id := asInt(m["id"])
+	if id%3 == 0 {
+		if m["n"] != nil {
+			*errs = append(*errs, fmt.Sprintf("%s: row %d: n is NULL, the map holds %v", where, id, m["n"]))
+		}
+	} else if m["n"] == nil || asInt(deref(m["n"])) != id {
+		*errs = append(*errs, fmt.Sprintf("%s: row %d: n = %d, the map holds %v", where, id, id, m["n"]))
+	}
+	if asInt(m["key_copy"]) != id {
+		*errs = append(*errs, fmt.Sprintf("%s: row %d: key_copy = %d, the map holds %v", where, id, id, m["key_copy"]))
+	}
+	return Row{id, asInt(m["v"])}
+}
+
+func deref(v interface{}) interface{} {
+	if p, ok := v.(*int64); ok && p != nil {
+		return *p
+	}
+	return v
+}
+
 func asInt(v interface{}) int64 {
 	switch x := v.(type) {
 	case int64:
@@ -297,7 +327,7 @@ func run(db *gorm.DB, in Input) (o Obs) {
 	fail("maps", chain(db, in).Model(&Item{}).Find(&maps).Error)
 	o.Maps = []Row{}
 	for _, m := range maps {
-		o.Maps = append(o.Maps, Row{asInt(m["id"]), asInt(m["v"])})
+		o.Maps = append(o.Maps, mapRow(m, "Find into maps", &o.Errs))
 	}
 	// Rows + ScanRows
 	o.Rows = []Row{}
@@ -379,7 +409,7 @@ func run(db *gorm.DB, in Input) (o Obs) {
 		o.ScanMapsRA = r.RowsAffected
 		o.ScanMaps = []Row{}
 		for _, m := range ms {
-			o.ScanMaps = append(o.ScanMaps, Row{asInt(m["id"]), asInt(m["v"])})
+			o.ScanMaps = append(o.ScanMaps, mapRow(m, "Scan into maps", &o.Errs))
 		}
 		o.RowsMaps = []Row{}
 		rows, err := chain(db, in).Model(&Item{}).Rows()
@@ -389,7 +419,7 @@ func run(db *gorm.DB, in Input) (o Obs) {
 				var one []map[string]interface{}
 				fail("scanrows_maps", db.ScanRows(rows, &one))
 				for _, m := range one {
-					o.RowsMaps = append(o.RowsMaps, Row{asInt(m["id"]), asInt(m["v"])})
+					o.RowsMaps = append(o.RowsMaps, mapRow(m, "ScanRows into maps", &o.Errs))
 				}
 			}
 			rows.Close()
@@ -404,11 +434,35 @@ func run(db *gorm.DB, in Input) (o Obs) {
 			if r.Error == nil && r.RowsAffected != 1 {
 				o.Errs = append(o.Errs, fmt.Sprintf("%s: RowsAffected=%d", name, r.RowsAffected))
 			}
-			return &Row{asInt(m["id"]), asInt(m["v"])}
+			row := mapRow(m, name, &o.Errs)
+			return &row
 		}
 		o.FirstMap = singleMap("first_map", func(tx *gorm.DB, d *map[string]interface{}) *gorm.DB { return tx.First(d) })
 		o.LastMap = singleMap("last_map", func(tx *gorm.DB, d *map[string]interface{}) *gorm.DB { return tx.Last(d) })
 		o.TakeMap = singleMap("take_map", func(tx *gorm.DB, d *map[string]interface{}) *gorm.DB { return tx.Take(d) })
+		// one map used for two reads: the second read decides every entry
+		if o.FirstMap != nil && o.LastMap != nil {
+			m := map[string]interface{}{}
+			fail("reuse_first", chain(db, in).Model(&Item{}).First(&m).Error)
+			fail("reuse_last", chain(db, in).Model(&Item{}).Last(&m).Error)
+			if got := mapRow(m, "Last into the map First had filled", &o.Errs); got != *o.LastMap {
+				o.Errs = append(o.Errs, fmt.Sprintf("Last into the map First had filled: %v, Last into a fresh map: %v", got, *o.LastMap))
+			}
+		}
+		// Scan as the first call on a reusable handle
+		h := chain(db, in).Model(&Item{}).Session(&gorm.Session{})
+		var hs []Item
+		hr := h.Scan(&hs)
+		fail("handle_scan", hr.Error)
+		if hr.Error == nil && (hr.RowsAffected != int64(len(hs)) || fmt.Sprint(toRows(hs)) != fmt.Sprint(o.Scan)) {
+			o.Errs = append(o.Errs, fmt.Sprintf("Scan on a Session handle: RowsAffected=%d rows=%v, Scan at the end of the chain: %v", hr.RowsAffected, toRows(hs), o.Scan))
+		}
+		var hm []map[string]interface{}
+		hr = h.Scan(&hm)
+		fail("handle_scan_maps", hr.Error)
+		if hr.Error == nil && (hr.RowsAffected != int64(len(hm)) || len(hm) != len(o.Scan)) {
+			o.Errs = append(o.Errs, fmt.Sprintf("Scan into maps on a Session handle: RowsAffected=%d, %d maps, %d rows", hr.RowsAffected, len(hm), len(o.Scan)))
+		}
 	}
 	// Pluck
 	o.PluckID, o.PluckV = []int64{}, []int64{}
